@@ -354,6 +354,7 @@ def nested_viewport(H):
     k1 = _el("path", {"d": "M0,0"})
     innermost = _el("svg", {"width": "7"}, [_el("path", {"d": "M9,9"})])
     k2 = _el("g", {}, [innermost])  # an svg nested in the nested svg, not a direct child
+    attrib.update({"fill": "red", "opacity": "0.5", "display": "inline", "stroke-width": "3"})  # presentation attributes of the nested svg
     inner = _el("svg", attrib, [k1, k2])
     root = _el("svg", {}, [inner, _el("clipPath", {"id": "nested-svg-viewport-0"})])
     svg = SVG(root)
@@ -397,6 +398,10 @@ def nested_viewport(H):
     H.prove(g is not None and local(g) == "g" and list(g) == [k1, k2] and len(inner) == 0, "nested.children_move_into_the_group_in_order")
     if g is None:
         return
+    # an svg element establishes a viewport AND carries presentation attributes for its content, like a group does
+    holder_chain = [g] + ([res[1]] if clipped else [])
+    carried = {k: next((h.attrib[k] for h in holder_chain if k in h.attrib), None) for k in ("fill", "opacity", "display", "stroke-width")}
+    H.prove(carried == {"fill": "red", "opacity": "0.5", "display": "inline", "stroke-width": "3"}, "nested.presentation_attributes_of_the_nested_svg_reach_its_content", detail=str(carried))
     # an svg inside the nested svg is resolved first, against the size of the viewBox it lives in (the viewport's when there is none)
     ok = len(recursive) == 1 and recursive[0][0] is innermost and list(k2) == [replacement]
     H.prove(ok, "nested.inner_svgs_are_unnested_too_in_place")
@@ -414,10 +419,13 @@ def nested_viewport(H):
             H.prove(And(H.close(tuple(a[0]), tuple(vb)), H.close(tuple(a[1]), (x, y, w, h))), "nested.viewbox_onto_viewport_in_that_order_default_size_is_parent_size")
         q = map_pt(V, p)
     else:
-        # no mapping asked for: only right without a viewBox, or when it coincides with the viewport
+        # no mapping asked for: only right without a viewBox (content placed at x, y), or when the viewBox coincides with the viewport -
+        # in which case the mapping viewBox -> viewport is the IDENTITY, not a translation by (x, y)
         if has_vb:
             H.prove(same, "nested.viewbox_ignored_only_if_equal_to_the_viewport")
-        q = (p[0] + x, p[1] + y)
+            q = p
+        else:
+            q = (p[0] + x, p[1] + y)
     if has_tr:
         q = map_pt(tm, q)
     tr = g.attrib.get("transform")
@@ -425,7 +433,7 @@ def nested_viewport(H):
         # stated per matrix entry (six small queries instead of one point-mapping query)
         from .spec import mat_mul, translate_m
 
-        total = tuple(V) if r2r else translate_m(x, y)
+        total = tuple(V) if r2r else ((1, 0, 0, 1, 0, 0) if has_vb else translate_m(x, y))
         if has_tr:
             total = mat_mul(tuple(tm), total)
         for a_, b_ in zip(total, (1, 0, 0, 1, 0, 0)):
